@@ -42,7 +42,7 @@ PLAN = {
     "C02": {"quick": [native("A", 12, Q), native("C", 4, Q), miri("A", MQ)], "thorough": [native("A", 24, T), native("C", 8, T), native("B", 8, T / 2), miri("A", MT), miri("C", MT // 4)]},
     "C03": {"quick": [native("A", 12, Q), native("D", 4, Q), miri("A", MQ)], "thorough": [native("A", 24, T), native("D", 8, T), miri("A", MT), miri("D", MT // 4)]},
     "C04": {"quick": [native("B", 12, Q), native("D", 4, Q), miri("B", MQ, count=3)], "thorough": [native("B", 24, T), native("D", 8, T), miri("B", MT, count=3), miri("D", MT // 4)]},
-    "C05": {"quick": [native("C", 16, Q), miri("C", MQ, count=3)], "thorough": [native("C", 32, T), miri("C", MT, count=3)]},
+    "C05": {"quick": [native("C", 12, Q), native("B", 4, Q), miri("C", MQ, count=3)], "thorough": [native("C", 24, T), native("B", 8, T), miri("C", MT, count=3), miri("B", MT // 4)]},
     "C06": {"quick": [native("C", 16, Q), miri("C", MQ, count=3)], "thorough": [native("C", 32, T), miri("C", MT, count=3)]},
     "C07": {"quick": [native("A", 12, Q), native("D", 4, Q), miri("A", MQ)], "thorough": [native("A", 24, T), native("D", 8, T), miri("A", MT), miri("D", MT // 4)]},
     "C08": {"quick": [native("A", 14, Q), native("G", 2, Q), miri("A", MQ)], "thorough": [native("A", 24, T), native("G", 8, T), miri("A", MT), tsan("A", 8, 20)]},
@@ -66,7 +66,7 @@ RULES = {
     # a scenario that is stuck by the logical criterion is a violation of these properties when it
     # happens in their own workloads (blocking is part of what they state); other checks count it
     # as inconclusive and leave it to C13
-    "stuck_reported_by": ["C04", "C05", "C06", "C10", "C11", "C13", "C14", "C15", "C17"],
+    "stuck_reported_by": ["C04", "C05", "C06", "C10", "C11", "C13", "C14", "C15", "C17", "C19"],
     "miri_report_props": {},
     "nontrivial": {
         "C01": "seeded pipeline stress (families A, B, E): policy, capacity 1-16, 1-6 producers x 1-40 actions, 1-4 reducers with a Dispatch/Keep table, middlewares, subscribers, readers, run-time registration, stop racing or after join; non-trivial iff >=2 producer threads interleaved, >=1 Keep answer and a chain of >=2 reducers; " + SCHED,
